@@ -111,10 +111,12 @@ def run(repo: Repo, rep: Report, tier: str) -> None:
                     sub = f"{mod.relpath}:{fn.qualname} `{norm(c)[:60]}`"
                     if c.args or any(k.arg == "schemas" for k in c.keywords):
                         rep.ok("R13.1", sub, "constructed over an explicit schema registry", fn.loc(c))
+                    elif nm == "EndpointVisitor":
+                        rep.violation("R13.1", sub, f"{fn.fq}|visitor-without-registry",
+                                      "an EndpointVisitor built without the schema registry resolves inline / anonymous item types differently from the one the "
+                                      "endpoint clients are generated with: e.g. the client returns `List[AnonymousArrayItem]`, the mock `List[Any]`", fn.loc(c))
                     else:
-                        # triaged: types are resolved through RenderContext.parsed_schemas, which all three share (no witness of a
-                        # diverging signature could be produced) - recorded as analysed, not as a violation
-                        rep.ok("R13.1", sub, "constructed without an explicit registry; type resolution goes through the shared RenderContext.parsed_schemas", fn.loc(c))
+                        rep.ok("R13.1", sub, "constructed inside a visitor that already holds the registry", fn.loc(c))
     rep.require(n_ctor >= 4, f"R13.1: only {n_ctor} generator constructions found (floor 4)")
 
     # ---------------------------------------------------------------- R13.3 mock bodies raise
